@@ -182,21 +182,61 @@ def forward(fn, init, transfer_elem, transfer_edge, join, bottom=None, edge_ok=N
     return IN, before
 
 
+def strip_not(c):
+    """(condition without leading negations, True if an odd number of `!` was removed)"""
+    from . import ir
+    flipped = False
+    while True:
+        u = ir.as_unop(ir.unwrap(c))
+        if u and u[0] == "!":
+            c = u[1]
+            flipped = not flipped
+            continue
+        return c, flipped
+
+
+def reachable_without_edge(fn, src, dst, goal):
+    """is `goal` reachable from the entry when the edge src->dst is removed?"""
+    seen = set()
+    st = [fn.entry]
+    while st:
+        b = st.pop()
+        if b in seen:
+            continue
+        seen.add(b)
+        if b == goal:
+            return True
+        if fn.is_noreturn(b):
+            continue
+        for to, _ in fn.succs(b):
+            if b == src and to == dst:
+                continue
+            st.append(to)
+    return False
+
+
 def dominated_by_edge(fn, bid, cond_pred, label="true"):
-    """block bid is reachable only through the `label` edge of a branch whose condition satisfies cond_pred(cond expr):
-    returns the list of such branch blocks"""
+    """block bid is reachable only through the edge on which a branch condition P with cond_pred(P) has the truth value
+    `label` (`if (!P)` counts with the labels exchanged; exact edge dominance: bid is unreachable once that edge is
+    removed): returns the list of such branch blocks"""
     dom = dominators(fn)
     out = []
     for d in dom.get(bid, ()):
         t = fn.term(d)
         c = t.get("cond")
-        if c is None or not cond_pred(c):
+        if c is None:
             continue
+        want = label
+        if not cond_pred(c):
+            c2, flipped = strip_not(c)
+            if not flipped or not cond_pred(c2):
+                continue
+            want = "false" if label == "true" else "true"
         succ = dict((lab, to) for to, lab in fn.succs(d))
-        tgt = succ.get(label)
+        tgt = succ.get(want)
         if tgt is None:
             continue
-        other = succ.get("false" if label == "true" else "true")
-        if (tgt == bid or tgt in dom.get(bid, ())) and tgt != other:
+        other = succ.get("false" if want == "true" else "true")
+        if tgt != other and not reachable_without_edge(fn, d, tgt, bid):
             out.append(d)
     return out
